@@ -30,10 +30,19 @@ def main():
         wt = os.path.join(scratch, "wt")
         try:
             rc, out = sh(f"git -C /repo worktree add -q --detach {wt} HEAD")
+            env0 = dict(os.environ, PYTHONPATH=f"{wt}/src")
+            rc0, _ = sh(f"/venv/bin/python {d}/demo.py", cwd=wt, env=env0)
             rc, out = sh(f"git apply {d}/patch.diff", cwd=wt)
             if rc != 0:
                 print(name, "PATCH DOES NOT APPLY", out[:200])
                 continue
+            rc1, out1 = sh(f"/venv/bin/python {d}/demo.py", cwd=wt, env=env0)
+            _, head = sh("git -C /repo rev-parse --short HEAD")
+            meta["base"] = head.strip()
+            meta["demo_unpatched_exit"], meta["demo_patched_exit"] = rc0, rc1
+            meta["confirmed"] = rc0 == 0 and rc1 != 0
+            if not meta["confirmed"]:
+                print(name, f"NOT CONFIRMED on {head.strip()}: demo unpatched={rc0} patched={rc1}")
             ran = []
             for p_ in [meta["property"]] + also:
                 t0 = time.time()
